@@ -79,6 +79,10 @@ def run(tier):
             binding_selftest(ck, "IncHashTrace", "IncHashTrace_%s_%d" % (mode, key), tr, _corrupt_inc, "inchash trace " + m, timeout=1800)
         ntr += runs
         ck.cov["evaluations"] += nev
+    # the two entry points also agree on the result CLASS for every key / digest length inside and outside the ranges
+    po = os.path.join(wd, "params.json")
+    conform("stable", ["inc-params", po, ck.seed])
+    ck.add_report(json.load(open(po)))
     _apalache(ck)
     ck.cov["traces_validated_against_impl"] = ntr
     if not ck.cov["distinct_nontrivial"]:
